@@ -89,6 +89,16 @@ func H_reset() {
 			e.amevH = -1
 		}
 		e.api = apiStart
+		vSymTsInc(e)
+		np := vParam("npool")
+		for i := 0; i < np; i++ {
+			e.pool = append(e.pool, &vTx{h: vhash(vU64("pool.tx"))})
+		}
+		for i := 0; i < np; i++ {
+			for j := i + 1; j < np; j++ {
+				vAssume(e.pool[i].Hash() != e.pool[j].Hash())
+			}
+		}
 	} else {
 		e = vSymState(b)
 		vAssume(vpInv(e, false))
